@@ -24,11 +24,10 @@ def configs(tier):
     return [dict(N=1, M=1, d=1), dict(N=3, M=2, d=2), dict(N=2, M=3, d=3)]
 
 
-_CACHE = {}
-
-
 def run_layout(ctx, cname, cfg):
-    key = (id(ctx.prog), cname, tuple(sorted(cfg.items())))
+    # the cache lives on the analysed program (one per run / per self-test variant), never in the module
+    _CACHE = ctx.prog.__dict__.setdefault("_layout_cache", {})
+    key = (cname, tuple(sorted(cfg.items())))
     if key not in _CACHE:
         try:
             L = Layout(ctx.prog, cname, **cfg)
